@@ -395,4 +395,131 @@ example : ∃ it : Item, it.wf := ⟨⟨[49], none, .s⟩, by decide, by decide,
 example : inRange 0 ∧ inRange maxLoc ∧ ¬ inRange (maxLoc + 1) := by decide
 example : tsAdd ⟨maxLoc, 0⟩ 1 = .error .overflow := by rfl
 
+/-! #### round 2: the instant alone decides; civil fields end to end; half-even; `H:MM`; `µs` -/
+
+/-- an accessor looks at the INSTANT only: two timestamps that denote the same instant (same UTC clock) with
+different own offsets (`2020-12-31T23:30:00-05:30` and `2021-01-01T05:00:00Z`) give the same field, with or
+without a zone argument — no fast path may read the timestamp's own wall-clock fields -/
+theorem accessor_instant_only (a : Acc) (t1 t2 : Ts) (off : Int) (h : t1.utc = t2.utc) :
+    tsAccessor a t1 off = tsAccessor a t2 off := by
+  unfold tsAccessor astimezone; rw [h]
+
+/-- without a zone argument the field is the UTC field, whatever the timestamp's own offset -/
+theorem accessor_no_zone_utc (a : Acc) (t : Ts) (h : inRange t.utc) :
+    tsAccessorFixed a t [] = .ok (accField a (civilOfLoc t.utc)) := by
+  have := accessor_offset a t 0 h (by simpa using h)
+  simp only [Int.add_zero] at this
+  simp [tsAccessorFixed, this, bind, Except.bind, pure, Except.pure]
+
+/-- the accessors return the civil-calendar fields: if the instant, seen at offset `off`, is the civil
+date-time y-m-d hh:mm:ss.us, then getFullYear = y, getMonth = m − 1, getDate = d, getDayOfMonth = d − 1,
+getDayOfYear = days of the preceding months + d − 1, getDayOfWeek = days since a Sunday mod 7, getHours = hh,
+getMinutes = mm, getSeconds = ss, getMilliseconds = ⌊us / 1000⌋ — for every valid civil date-time -/
+theorem accessors_return_civil_fields (t : Ts) (off : Int) (y m d hh mm ss us : Nat) (hv : validDate y m d)
+    (h1 : hh < 24) (h2 : mm < 60) (h3 : ss < 60) (h4 : us < 1000000)
+    (e : locOfCivil y m d hh mm ss us = t.utc + off) (hu : inRange t.utc) (hl : inRange (t.utc + off)) :
+    tsAccessor .getFullYear t off = .ok (y : Int) ∧
+    tsAccessor .getMonth t off = .ok ((m : Int) - 1) ∧
+    tsAccessor .getDate t off = .ok (d : Int) ∧
+    tsAccessor .getDayOfMonth t off = .ok ((d : Int) - 1) ∧
+    tsAccessor .getDayOfYear t off = .ok ((daysBeforeMonth y m + d - 1 : Nat) : Int) ∧
+    tsAccessor .getDayOfWeek t off = .ok (((daysOfCivil y m d + 1) % 7 : Nat) : Int) ∧
+    tsAccessor .getHours t off = .ok (hh : Int) ∧
+    tsAccessor .getMinutes t off = .ok (mm : Int) ∧
+    tsAccessor .getSeconds t off = .ok (ss : Int) ∧
+    tsAccessor .getMilliseconds t off = .ok ((us / 1000 : Nat) : Int) := by
+  obtain ⟨ey, em, ed, eh, emi, es, eu⟩ := locOfCivil_unique (t.utc + off) y m d hh mm ss us hv h1 h2 h3 h4 e
+  have hidx : (civilOfLoc (t.utc + off)).dayIndex = daysOfCivil y m d := by
+    have := (civil_days (civilOfLoc (t.utc + off)).dayIndex).2
+    have ey' : (civilOfDays (civilOfLoc (t.utc + off)).dayIndex).1 = y := ey
+    have em' : (civilOfDays (civilOfLoc (t.utc + off)).dayIndex).2.1 = m := em
+    have ed' : (civilOfDays (civilOfLoc (t.utc + off)).dayIndex).2.2 = d := ed
+    rw [ey', em', ed'] at this
+    exact this.symm
+  have hdoy := doy_eq (t.utc + off)
+  rw [ey, em, ed] at hdoy
+  have hdow := dow_eq (civilOfLoc (t.utc + off))
+  rw [hidx] at hdow
+  refine ⟨?_, ?_, ?_, ?_, ?_, ?_, ?_, ?_, ?_, ?_⟩ <;> rw [accessor_offset _ t off hu hl]
+  · simp [accField, ey]
+  · simp [accField, em]
+  · simp [accField, ed]
+  · simp [accField, ed]
+  · rw [hdoy]
+  · rw [hdow]
+  · simp [accField, eh]
+  · simp [accField, emi]
+  · simp [accField, es]
+  · simp [accField, eu]
+
+/-- "rounded half-even to a whole microsecond" means what it says: `rne n d` is an integer nearest to `n / d`
+(within half a unit), and on an exact tie it is the even neighbour -/
+theorem rne_nearest (n d : Nat) (hd : 0 < d) :
+    2 * (rne n d * d) ≤ 2 * n + d ∧ 2 * n ≤ 2 * (rne n d * d) + d ∧ (2 * (n % d) = d → rne n d % 2 = 0) := by
+  have hdm : d * (n / d) + n % d = n := Nat.div_add_mod n d
+  have hlt : n % d < d := Nat.mod_lt n hd
+  have e1 : (n / d + 1) * d = d * (n / d) + d := by rw [Nat.add_mul, Nat.mul_comm]; simp
+  have e0 : n / d * d = d * (n / d) := Nat.mul_comm _ _
+  unfold rne
+  split
+  · refine ⟨by rw [e0]; omega, by rw [e0]; omega, by intro h; omega⟩
+  · split
+    · refine ⟨by rw [e1]; omega, by rw [e1]; omega, by intro h; omega⟩
+    · split
+      · refine ⟨by rw [e0]; omega, by rw [e0]; omega, by intro _; assumption⟩
+      · refine ⟨by rw [e1]; omega, by rw [e1]; omega, by intro _; omega⟩
+
+/-- `tz_offset_parse("±H:MM")` (one-digit hour) is ±(H·60+MM) minutes -/
+def offsetText1 (s : Sgn) (h mm : Nat) : List Nat :=
+  s.text ++ [48 + h, 58, 48 + mm / 10, 48 + mm % 10]
+
+theorem tz_offset_parse_spec1 (s : Sgn) (h mm : Nat) (h1 : h < 10) (h2 : mm < 100) :
+    tzOffsetParse (offsetText1 s h mm) = .ok (s.val * ((h * 60 + mm : Nat) : Int) * 60000000) := by
+  have d1 : isDigit (48 + h) = true := by rw [isDigit_iff]; omega
+  have d3 : isDigit (48 + mm / 10) = true := by rw [isDigit_iff]; omega
+  have d4 : isDigit (48 + mm % 10) = true := by rw [isDigit_iff]; omega
+  have l10 : ¬ (48 + mm % 10 = 10) := by omega
+  have e2 : (48 + mm / 10 - 48) * 10 + (48 + mm % 10 - 48) = mm := by omega
+  have n43 : ¬ (48 + h = 43) := by omega
+  have n45 : ¬ (48 + h = 45) := by omega
+  have f2 : mm / 10 * 10 + mm % 10 = mm := by omega
+  have g2 : (mm : Int) / 10 * 10 + (mm : Int) % 10 = mm := by omega
+  have lt : h * 60 + mm < 1440 := by omega
+  cases s <;> simp [offsetText1, Sgn.text, Sgn.val, tzOffsetParse, d1, d3, d4, l10, n43, n45] <;>
+    simp [f2, g2, lt]
+
+example : rne 5 2 = 2 ∧ rne 7 2 = 4 ∧ rne 1 3 = 0 ∧ rne 2 3 = 1 := by decide
+example : tzOffsetParse [53, 58, 51, 48] = .ok 19800000000 := by rfl   -- "5:30"
+
+
+/-- `duration(text)` does not distinguish the two spellings of the microsecond unit, for EVERY text
+(valid or not): `"1.5µs2h"` and `"1.5us2h"` denote the same duration or fail alike -/
+theorem duration_micro_sign (text : List Nat) : durParse (text.map deMicro) = durParse text := by
+  have hlast : (text.map deMicro).getLast? = some 10 ↔ text.getLast? = some 10 := by
+    rw [List.getLast?_map]
+    cases text.getLast? with
+    | none => simp
+    | some c => simp only [Option.map_some, Option.some.injEq]; unfold deMicro; split <;> omega
+  have hbody : (if (text.map deMicro).getLast? = some 10 then (text.map deMicro).dropLast else text.map deMicro) =
+      (if text.getLast? = some 10 then text.dropLast else text).map deMicro := by
+    by_cases h : text.getLast? = some 10
+    · rw [if_pos h, if_pos (hlast.mpr h), List.map_dropLast]
+    · rw [if_neg h, if_neg (fun hh => h (hlast.mp hh))]
+  unfold durParse
+  simp only [hbody]
+  generalize (if text.getLast? = some 10 then text.dropLast else text) = body
+  rcases body with _ | ⟨c, r⟩
+  · rfl
+  · have d45 : deMicro c = 45 ↔ c = 45 := by unfold deMicro; split <;> omega
+    have d43 : deMicro c = 43 ↔ c = 43 := by unfold deMicro; split <;> omega
+    simp only [List.map_cons, List.head?_cons, Option.some.injEq, d45, d43, List.tail_cons]
+    by_cases h : c = 43 ∨ c = 45
+    · simp only [if_pos h, List.length_map, parseItems_deMicro]
+    · simp only [if_neg h]
+      have : deMicro c :: List.map deMicro r = List.map deMicro (c :: r) := rfl
+      rw [this, List.length_map, parseItems_deMicro]
+
+set_option maxRecDepth 10000 in
+example : durParse [49, 46, 53, 181, 115] = .ok 2 ∧ durParse [49, 46, 53, 117, 115] = .ok 2 := ⟨by rfl, by rfl⟩  -- "1.5µs"
+
 end Cel.Props.C11
